@@ -58,13 +58,17 @@ impl Bits {
     /// The same input, built through the public `From<BitVec>` conversion from a bit vector whose
     /// storage starts `head` bits into its first word (what `bits[head..].to_bitvec()` yields).
     pub fn idpf_head(&self, head: usize) -> IdpfInput {
+        self.idpf_head_fill(head, true)
+    }
+    /// `fill` = value of the `head` dead bits in front of the vector's storage.
+    pub fn idpf_head_fill(&self, head: usize, fill: bool) -> IdpfInput {
         use bitvec::prelude::*;
         if head == 0 {
             return self.idpf();
         }
         let mut bv: BitVec<usize, Lsb0> = BitVec::new();
         for _ in 0..head {
-            bv.push(true);
+            bv.push(fill);
         }
         for b in self.bools() {
             bv.push(b);
@@ -89,11 +93,15 @@ pub struct Report {
     pub rand_seed: u64,
 }
 
-#[derive(Clone, Debug, Serialize, Deserialize)]
+#[derive(Clone, Debug, Default, Serialize, Deserialize)]
 pub struct AggParamSpec {
     pub level: usize,
     /// sorted, distinct, each of length level+1
     pub prefixes: Vec<Bits>,
+    /// storage offset of each candidate's bit vector (low 6 bits) and the value of the dead bits in
+    /// front of it (bit 7); empty = derived from the prefix (`prefix_head`)
+    #[serde(default)]
+    pub heads: Vec<u8>,
 }
 
 #[derive(Clone, Debug, Serialize, Deserialize)]
@@ -118,7 +126,7 @@ impl Case {
             ctx: Hex(b"ctx".to_vec()),
             key_seed: 5,
             reports: vec![Report { input: input.clone(), nonce_seed: 3, rand_seed: 4 }],
-            chain: vec![AggParamSpec { level: bits - 1, prefixes: vec![input] }],
+            chain: vec![AggParamSpec { level: bits - 1, prefixes: vec![input], heads: vec![] }],
             heavy_hitters: None,
         }
     }
@@ -189,9 +197,33 @@ fn build_case(raw: Raw, ctx: Hex, key_seed: u64) -> Case {
             }
             set.push(Bits::from_bools(&bools));
         }
+        // Shift-coincident candidates (first parameter only, where nothing has to be extended):
+        // for a candidate B stored `d` bits into its first word behind zero dead bits, the string
+        // A = 0^d ‖ B[..len−d] stored at offset 0 occupies the same raw storage. A cache that keys on
+        // raw storage instead of on the value would take one for the other.
+        let mut shifted: Option<(Bits, Bits, u8)> = None;
+        if chain.is_empty() && len >= 3 {
+            if let Some((src, a, b, _)) = descr.first() {
+                if src % 3 == 0 && !set.is_empty() {
+                    let bsel = set[idx16(*a, set.len())].clone();
+                    let d = 1 + idx16(*b, (len - 1).min(7));
+                    let mut ab = vec![false; d];
+                    ab.extend_from_slice(&bsel.bools()[..len - d]);
+                    let asel = Bits::from_bools(&ab);
+                    if asel != bsel {
+                        set.push(asel.clone());
+                        shifted = Some((asel, bsel, d as u8));
+                    }
+                }
+            }
+        }
         set.sort_by(|x, y| x.bools().cmp(&y.bools()));
         set.dedup();
-        chain.push(AggParamSpec { level: *level, prefixes: set });
+        let heads = match &shifted {
+            Some((a, b, d)) => set.iter().map(|x| if x == b { *d } else if x == a { 0 } else { 0 }).collect(),
+            None => vec![],
+        };
+        chain.push(AggParamSpec { level: *level, prefixes: set, heads });
     }
     Case { bits, xof: [PopXof::Turbo, PopXof::Turbo, PopXof::Aes, PopXof::Biased][raw.xof as usize % 4], ctx, key_seed, reports, chain, heavy_hitters: raw.hh.filter(|_| bits <= 10).map(|t| 1 + (t as usize % 4)) }
 }
@@ -254,7 +286,15 @@ pub fn prefix_head(b: &Bits, k: usize) -> usize {
 }
 
 pub fn make_param(spec: &AggParamSpec) -> Result<Poplar1AggregationParam, String> {
-    Poplar1AggregationParam::try_from_prefixes(spec.prefixes.iter().enumerate().map(|(k, b)| b.idpf_head(prefix_head(b, k))).collect()).map_err(|e| format!("{e}"))
+    let explicit = spec.heads.len() == spec.prefixes.len();
+    Poplar1AggregationParam::try_from_prefixes(
+        spec.prefixes
+            .iter()
+            .enumerate()
+            .map(|(k, b)| if explicit { b.idpf_head_fill((spec.heads[k] & 63) as usize, spec.heads[k] & 128 != 0) } else { b.idpf_head(prefix_head(b, k)) })
+            .collect(),
+    )
+    .map_err(|e| format!("{e}"))
 }
 
 pub struct PopRun {
@@ -437,7 +477,7 @@ fn heavy_hitters_check(case: &Case, threshold: usize, obs: &mut Obs) {
         if cands.is_empty() {
             break;
         }
-        chain_case.chain.push(AggParamSpec { level, prefixes: cands.clone() });
+        chain_case.chain.push(AggParamSpec { level, prefixes: cands.clone(), heads: vec![] });
         // running the whole chain again at every step would be quadratic; the per-report state is
         // stateless here, so evaluating just the last parameter is equivalent to continuing
         let mut one = chain_case.clone();
@@ -541,7 +581,7 @@ impl Check for C03 {
             sib[l - 1] = !sib[l - 1];
             let mut prefixes = vec![input.prefix(level + 1), Bits::from_bools(&sib)];
             prefixes.sort_by(|x, y| x.bools().cmp(&y.bools()));
-            v.push(Case { bits, xof: PopXof::Turbo, ctx: Hex(b"deep".to_vec()), key_seed: 9, reports: vec![Report { input, nonce_seed: 21, rand_seed: 22 }], chain: vec![AggParamSpec { level, prefixes }], heavy_hitters: None });
+            v.push(Case { bits, xof: PopXof::Turbo, ctx: Hex(b"deep".to_vec()), key_seed: 9, reports: vec![Report { input, nonce_seed: 21, rand_seed: 22 }], chain: vec![AggParamSpec { level, prefixes, heads: vec![] }], heavy_hitters: None });
         }
         v
     }
